@@ -1,3 +1,226 @@
 import Babylon.Core.Proto
-/-! Line-protocol driver for property C11 (stub). -/
-def main : IO Unit := Babylon.Core.runLines (fun (s : Unit) _ => (s, "bad-op")) ()
+import Babylon.Wire.Codec
+/-! Line-protocol driver for the serialization model (property C11).
+
+    usage: drv_C11 [debug|ndebug]
+
+    type <id> <type-expr>                 register a type under an id            -> ok
+    enc  <id> <value>                     size + serialize                       -> ok <size> <hex|->
+    enc2 <id> <value1> <value2>           serialize value1, mutate the same object to value2,
+                                          serialize again (the model has no caches: = enc value2)
+    dec  <id> <hex|-> <pres>              parse into a fresh object              -> ok <value> | fail | noret
+    deci <id> <value> <hex|-> <pres>      parse into an object holding <value>   -> ok <value> | fail | noret
+
+    type-expr:  bool i8 i16 i32 i64 u8 u16 u32 u64 e<bits><s|u> f32 f64 str vec(T) arr(T,n) list(T) set(T)
+                map(K,V) uptr(T) sptr(T) agg(<num>:T=<default>,…) aggb(…)   (aggb: first entry is the base class)
+    value:      decimal (negative for signed kinds; raw bit pattern for f32/f64), x<hex> string,
+                [v,…] sequence, [k:v,…] map, ~ null, &v pointer, (v,…) aggregate members in declaration order
+    pres:       f | fL<n> | s<chunk> | s<chunk>L<n>      (array-backed / stream-backed, optional outer PushLimit)
+    Sets and maps are printed sorted by the text of their elements. -/
+open Babylon.Core Babylon.Wire
+
+abbrev P := StateT (List Char) Option
+
+def peek : P (Option Char) := fun s => some (s.head?, s)
+def next : P Char := fun s => match s with | c :: r => some (c, r) | [] => none
+def expect (c : Char) : P Unit := do if (← next) == c then pure () else failure
+def tryChar (c : Char) : P Bool := fun s => match s with
+  | d :: r => if d == c then some (true, r) else some (false, s)
+  | [] => some (false, s)
+
+partial def natP : P Nat := do
+  let rec go (acc : Nat) (any : Bool) : P Nat := do
+    match (← peek) with
+    | some c => if c.isDigit then do let _ ← next; go (acc * 10 + (c.toNat - '0'.toNat)) true
+                else if any then pure acc else failure
+    | none => if any then pure acc else failure
+  go 0 false
+
+def identP : P String := fun s =>
+  let w := s.takeWhile (fun c => c.isAlphanum)
+  some (String.ofList w, s.drop w.length)
+
+def hexVal (c : Char) : Option Nat :=
+  if c.isDigit then some (c.toNat - '0'.toNat)
+  else if 'a' ≤ c ∧ c ≤ 'f' then some (c.toNat - 'a'.toNat + 10)
+  else if 'A' ≤ c ∧ c ≤ 'F' then some (c.toNat - 'A'.toNat + 10) else none
+
+partial def hexBytes : List Char → Option Bytes
+  | [] => some []
+  | a :: b :: r => do
+    let x ← hexVal a; let y ← hexVal b
+    let rest ← hexBytes r
+    pure (UInt8.ofNat (x * 16 + y) :: rest)
+  | _ => none
+
+def hexP : P Bytes := fun s =>
+  let w := s.takeWhile (fun c => (hexVal c).isSome)
+  match hexBytes w with
+  | some b => some (b, s.drop w.length)
+  | none => none
+
+def scalarOfName (s : String) : Option Ty :=
+  match s with
+  | "bool" => some .bool | "f32" => some .f32 | "f64" => some .f64 | "str" => some .str
+  | "i8" => some (.int 8 true) | "i16" => some (.int 16 true) | "i32" => some (.int 32 true) | "i64" => some (.int 64 true)
+  | "u8" => some (.int 8 false) | "u16" => some (.int 16 false) | "u32" => some (.int 32 false) | "u64" => some (.int 64 false)
+  | "e8s" => some (.enum 8 true) | "e16s" => some (.enum 16 true) | "e32s" => some (.enum 32 true) | "e64s" => some (.enum 64 true)
+  | "e8u" => some (.enum 8 false) | "e16u" => some (.enum 16 false) | "e32u" => some (.enum 32 false) | "e64u" => some (.enum 64 false)
+  | _ => none
+
+def fromSigned (bits : Nat) (neg : Bool) (n : Nat) : Nat := if neg then (2 ^ bits - n % 2 ^ bits) % 2 ^ bits else n
+
+mutual
+/-- value of a given type -/
+partial def valP (t : Ty) : P Val :=
+  match t with
+  | .bool => do pure (.num (← natP))
+  | .int b _ | .enum b _ => do let neg ← tryChar '-'; pure (.num (fromSigned b neg (← natP)))
+  | .f32 | .f64 => do pure (.num (← natP))
+  | .str => do expect 'x'; pure (.bytes (← hexP))
+  | .vec e | .list e | .set e | .arr e _ => do expect '['; seqP e
+  | .map k w => do expect '['; mapP k w
+  | .uptr e | .sptr e => do
+    if (← tryChar '~') then pure .null else do expect '&'; pure (.some (← valP e))
+  | .agg _ fs => do expect '('; recP fs true
+partial def seqP (e : Ty) : P Val := do
+  if (← tryChar ']') then pure .nil else do
+    let x ← valP e
+    let _ ← tryChar ','
+    pure (.cons x (← seqP e))
+partial def mapP (k w : Ty) : P Val := do
+  if (← tryChar ']') then pure .nil else do
+    let x ← valP k; expect ':'; let y ← valP w
+    let _ ← tryChar ','
+    pure (.cons (.pair x y) (← mapP k w))
+partial def recP (fs : Fields) (first : Bool) : P Val :=
+  match fs with
+  | .nil => do expect ')'; pure .nil
+  | .cons _ t _ rest => do
+    if !first then expect ','
+    let x ← valP t
+    pure (.cons x (← recP rest false))
+end
+
+mutual
+partial def tyP : P Ty := do
+  let name ← identP
+  match scalarOfName name with
+  | some t => pure t
+  | none =>
+    expect '('
+    match name with
+    | "vec" => do let t ← tyP; expect ')'; pure (.vec t)
+    | "list" => do let t ← tyP; expect ')'; pure (.list t)
+    | "set" => do let t ← tyP; expect ')'; pure (.set t)
+    | "uptr" => do let t ← tyP; expect ')'; pure (.uptr t)
+    | "sptr" => do let t ← tyP; expect ')'; pure (.sptr t)
+    | "arr" => do let t ← tyP; expect ','; let n ← natP; expect ')'; pure (.arr t n)
+    | "map" => do let k ← tyP; expect ','; let w ← tyP; expect ')'; pure (.map k w)
+    | "agg" => do pure (.agg false (← fieldsP true))
+    | "aggb" => do pure (.agg true (← fieldsP true))
+    | _ => failure
+partial def fieldsP (first : Bool) : P Fields := do
+  if (← tryChar ')') then pure .nil else do
+    if !first then expect ','
+    let num ← natP; expect ':'
+    let t ← tyP; expect '='
+    let d ← valP t
+    pure (.cons num t d (← fieldsP false))
+end
+
+def runP {α} (p : P α) (s : String) : Option α :=
+  match p s.toList with
+  | some (a, []) => some a
+  | _ => none
+
+/-! printing -/
+
+def hexDigit (n : Nat) : Char := if n < 10 then Char.ofNat (48 + n) else Char.ofNat (87 + n)
+def hexOf (b : Bytes) : String :=
+  String.ofList (b.flatMap (fun x => [hexDigit (x.toNat / 16), hexDigit (x.toNat % 16)]))
+def hexOrDash (b : Bytes) : String := if b.isEmpty then "-" else hexOf b
+
+def showNum (bits : Nat) (sgn : Bool) (n : Nat) : String :=
+  if sgn && decide (2 ^ (bits - 1) ≤ n) then "-" ++ toString (2 ^ bits - n) else toString n
+
+def insertSorted (s : String) : List String → List String
+  | [] => [s]
+  | h :: t => if s ≤ h then s :: h :: t else h :: insertSorted s t
+def sortStrings (l : List String) : List String := l.foldl (fun acc s => insertSorted s acc) []
+
+mutual
+partial def showVal (t : Ty) (v : Val) : String :=
+  match t, v with
+  | .bool, .num n => toString n
+  | .int b s, .num n => showNum b s n
+  | .enum b s, .num n => showNum b s n
+  | .f32, .num n | .f64, .num n => toString n
+  | .str, .bytes b => "x" ++ hexOf b
+  | .vec e, v | .list e, v | .arr e _, v => "[" ++ ",".intercalate (v.toList.map (showVal e)) ++ "]"
+  | .set e, v => "[" ++ ",".intercalate (sortStrings (v.toList.map (showVal e))) ++ "]"
+  | .map k w, v => "[" ++ ",".intercalate (sortStrings (v.toList.map (fun p => match p with
+      | .pair x y => showVal k x ++ ":" ++ showVal w y
+      | _ => "?"))) ++ "]"
+  | .uptr _, .null | .sptr _, .null => "~"
+  | .uptr e, .some x | .sptr e, .some x => "&" ++ showVal e x
+  | .agg _ fs, v => "(" ++ ",".intercalate (showRec fs v) ++ ")"
+  | _, _ => "?"
+partial def showRec (fs : Fields) (v : Val) : List String :=
+  match fs, v with
+  | .cons _ t _ rest, .cons x xs => showVal t x :: showRec rest xs
+  | _, _ => []
+end
+
+def presP : P Pres := do
+  let c ← next
+  let flat ← (if c == 'f' then pure true else if c == 's' then pure false else failure)
+  if !flat then let _ ← natP     -- chunk size: the model covers every chunking below 10 bytes alike
+  let outer ← (do if (← tryChar 'L') then pure (some (← natP)) else pure none)
+  pure { flat := flat, outer := outer }
+
+structure DSt where
+  types : List (String × Ty) := []
+  cfg : Cfg
+
+def showRes (t : Ty) : Res → String
+  | .ok v _ => "ok " ++ showVal t v
+  | .fail => "fail"
+  | .noret => "noret"
+
+def bytesArg (s : String) : Option Bytes := if s == "-" then some [] else runP hexP s
+
+def step (s : DSt) (line : String) : DSt × String :=
+  match words line with
+  | ["reset"] => (s, "ok")
+  | ["type", id, e] =>
+    match runP tyP e with
+    | some t => ({ s with types := (id, t) :: s.types.filter (·.1 != id) }, "ok")
+    | none => (s, "bad-type")
+  | ["enc", id, v] =>
+    match s.types.lookup id with
+    | some t => match runP (valP t) v with
+      | some x => (s, s!"ok {size t x} {hexOrDash (encode t x)}")
+      | none => (s, "bad-value")
+    | none => (s, "bad-id")
+  | ["enc2", id, _, v] =>
+    match s.types.lookup id with
+    | some t => match runP (valP t) v with
+      | some x => (s, s!"ok {size t x} {hexOrDash (encode t x)}")
+      | none => (s, "bad-value")
+    | none => (s, "bad-id")
+  | ["dec", id, h, p] =>
+    match s.types.lookup id, bytesArg h, runP presP p with
+    | some t, some b, some pr => (s, showRes t (parse s.cfg t pr b (dflt t)))
+    | _, _, _ => (s, "bad-op")
+  | ["deci", id, v, h, p] =>
+    match s.types.lookup id, bytesArg h, runP presP p with
+    | some t, some b, some pr =>
+      match runP (valP t) v with
+      | some d => (s, showRes t (parse s.cfg t pr b d))
+      | none => (s, "bad-value")
+    | _, _, _ => (s, "bad-op")
+  | _ => (s, "bad-op")
+
+def main (args : List String) : IO Unit :=
+  runLines step ({ cfg := Cfg.ofSource (args.head? == some "debug") } : DSt)
